@@ -1,5 +1,6 @@
 import Drv.Util
 import Drv.C06
+import Drv.C15
 open DrvUtil
 
 def main (args : List String) : IO UInt32 := do
@@ -7,4 +8,10 @@ def main (args : List String) : IO UInt32 := do
   let o ← IO.getStdout
   match args with
   | ["c06"] => mapLines i o drvC06; return 0
+  | ["c15pos"] => mapLines i o drvC15pos; return 0
+  | ["c15enc"] => mapLines i o drvC15enc; return 0
+  | ["c15dec"] => mapLines i o drvC15dec; return 0
+  | ["c15lw"] => mapLines i o drvC15lw; return 0
+  | ["c15lr"] => mapLines i o drvC15lr; return 0
+  | ["c15port"] => foldLines i o none drvC15port; return 0
   | _ => IO.eprintln s!"unknown model {args}"; return 2
